@@ -96,6 +96,10 @@ def gen_grammars(prop, tier, n, profile):
                 if h is not None: g = h
             tb = ref_lr1.build(g)
             if gg.classify(tb) in ('rr', 'acc'): continue
+            if 'W' in g.vtypes and rnd.random() < 0.5:
+                # a copyable value type whose move constructor is not noexcept (the parser's value variant then has a potentially throwing move too)
+                g.vtypes = ['X' if v == 'W' else v for v in g.vtypes]
+                g.rules = [gg.Rule(r.lhs, r.rhs, r.prec, 'cX' if r.ftor == 'cW' else r.ftor) for r in g.rules]
             add(g)
     elif profile == 'positions':  # C10
         for g in positions_core(): add(g)
@@ -364,6 +368,11 @@ def c14(tier):
     gs = gen_grammars('C14', tier, 160 if q else 2000, 'values') + gen_grammars('C14r', tier, 96 if q else 1000, 'recovery')
     merge(ck, run_pipeline('C14', tier, gs, cfg, flavour='asan' if not q else 'clang'))
     merge(ck, common.pmap(pipeline.worker, deep_specs('C14', tier)))
+    # values of a type with a potentially throwing move constructor while the run-time value stack grows beyond its reserve (recorded finding D17)
+    from .grammar import simple
+    g = simple('L->I L | I\nI->a'); g.vtypes = ['X', 'X']; g.note = 'deep:throwing-move'
+    merge(ck, common.pmap(pipeline.worker, [{'prop': 'C14', 'grammars': [g.to_json()], 'seed': 1, 'flavour': 'clang1', 'cfg': {'modes': [0], 'timeout': 600},
+                                              'explicit_inputs': [[(b'a' * k).hex() for k in (5, 1000, 1030, 2100)]]}]))
     # the fixed-size (cvector) stacks: every value type trivially destructible and the text in a cstring_buffer
     rnd = random.Random(common.seed() * 1409 + 14)
     cv = []
